@@ -145,6 +145,7 @@ theorem scalarKeys_of_typed_aux (hws : w.SupU false) (hk : (KeysHP w)) :
           rw [wellTyped] at hwt
           have hel := (wellTypedKV_iff w kt vt kvs).mp hwt
           simp only [Ty.supU, Bool.and_eq_true] at hs
+          replace hs := hs.1
           simp only [keysHP, Bool.and_eq_true] at hp
           rw [scalarKeys]
           refine (scalarKeysKV_iff kvs).mpr (fun p hpm => ?_)
